@@ -70,6 +70,8 @@ def statements(prog):
 
 
 def program_text(prog):
+    if prog.get("text"):  # hand-written surface syntax whose meaning is given by the AST (family FLEX)
+        return prog["text"]
     return " ".join(statements(prog))
 
 
@@ -175,6 +177,8 @@ def f2_menu():
     m.append(rule(A("p"), [[True, A("a")]], p="0.5"))
     # an AD that names the same atom at two positions (the choices are exclusive: P(p) = 0.2 + 0.3)
     m.append(ad([("0.2", A("p")), ("0.3", A("p"))]))
+    # an atom defined only as the negation of an AD head (its node is a bare negated choice)
+    m.append(rule(A("s"), [[False, A("a")]]))
     return m
 
 
@@ -405,3 +409,42 @@ def ft_programs():
                 clauses.append(rule(A("t"), [[pos, A(x)] for x, pos in b]))
             clauses.append(rule(A("s"), [[False, A("t")]]))
             yield clauses
+
+
+# ---------------------------------------------------------------------------------------------
+# FLEX: probabilities that are variables bound by the body (one clause, several groundings with
+# different probabilities).  The surface text uses the flexible form; the AST given to the reference
+# lists the groundings with their constant probabilities.
+
+def flex_programs():
+    progs = []
+
+    def P(text, clauses, queries, evidence=()):
+        progs.append({"text": text, "clauses": clauses, "queries": queries, "evidence": [list(e) for e in evidence]})
+
+    w = [fact(None, A("w", "a")), fact(None, A("w", "b"))]
+    g = [rule(A("g", "a"), [[True, A("w", "a")]], p="0.2"), rule(A("g", "b"), [[True, A("w", "b")]], p="0.7")]
+    base = "P::g(X) :- w(X,P). w(a,0.2). w(b,0.7). "
+    # the reference sees w/1 (the probability argument is not part of the logical content)
+    P(base + "query(g(a)). query(g(b)).", w + g, [A("g", "a"), A("g", "b")])
+    P(base + "q :- g(a), g(b). query(q). query(g(a)). query(g(b)).",
+      w + g + [rule(A("q"), [[True, A("g", "a")], [True, A("g", "b")]])], [A("q"), A("g", "a"), A("g", "b")])
+    P(base + "q :- g(a). q :- g(b). query(g(b)). query(q). evidence(g(a),false).",
+      w + g + [rule(A("q"), [[True, A("g", "a")]]), rule(A("q"), [[True, A("g", "b")]])],
+      [A("g", "b"), A("q")], [(A("g", "a"), False, "pair")])
+    P(base + "q :- g(a). q :- g(b). query(g(a)). query(g(b)). evidence(q,true).",
+      w + g + [rule(A("q"), [[True, A("g", "a")]]), rule(A("q"), [[True, A("g", "b")]])],
+      [A("g", "a"), A("g", "b")], [(A("q"), True, "pair")])
+    P(base + "0.5::c. q :- g(X), c. query(q). query(g(a)). query(g(b)). evidence(g(b),true).",
+      w + g + [fact("0.5", A("c")), rule(A("q"), [[True, A("g", "X")], [True, A("c")]])],
+      [A("q"), A("g", "a"), A("g", "b")], [(A("g", "b"), True, "pair")])
+    # flexible annotated disjunction
+    h = [ad([("0.2", A("h", "a", "u")), ("0.3", A("h", "a", "v"))], [[True, A("w", "a")]]),
+         ad([("0.6", A("h", "b", "u")), ("0.1", A("h", "b", "v"))], [[True, A("w", "b")]])]
+    hb = "P::h(X,u); Q::h(X,v) :- w(X,P,Q). w(a,0.2,0.3). w(b,0.6,0.1). "
+    P(hb + "query(h(a,u)). query(h(a,v)). query(h(b,u)). query(h(b,v)).", w + h,
+      [A("h", "a", "u"), A("h", "a", "v"), A("h", "b", "u"), A("h", "b", "v")])
+    P(hb + "q :- h(X,u). query(q). query(h(a,v)). query(h(b,u)). evidence(h(a,u),false).",
+      w + h + [rule(A("q"), [[True, A("h", "X", "u")]])], [A("q"), A("h", "a", "v"), A("h", "b", "u")],
+      [(A("h", "a", "u"), False, "pair")])
+    return progs
